@@ -105,6 +105,30 @@ theorem C03_exactly_once (base : Nat) (h : History) (i : Nat) (c : Cfg) (p : Poo
   obtain ⟨_, a, b, c'⟩ := hl.fin hf rfl
   exact ⟨a, b, c'⟩
 
+/-- **nothing is ever lost** in a history without `flush` / `gather_and_close` / `until_closed`, whatever the mix of
+normal returns, exceptions, cancellations (of tasks, groups, everything), sync and coroutine callbacks, gates and
+resizes: no wrapper ever misses its registry entry -/
+theorem C03_never_lost (base : Nat) (h : History) (hn : ∀ x ∈ h, x.admits noAsync = true) (i : Nat) (c : Cfg) (p : Pool)
+    (hc : ((World.init base).run h).cfgs[i]? = some c) (hp : ((World.init base).run h).pools[i]? = some p) :
+    p.lost = false := (strictAll base h hn i c p hc hp).1
+
+/-- hence, unconditionally for those histories: **exactly once** -/
+theorem C03_exactly_once_all (base : Nat) (h : History) (hn : ∀ x ∈ h, x.admits noAsync = true) (i : Nat) (c : Cfg)
+    (p : Pool) (hc : ((World.init base).run h).cfgs[i]? = some c) (hp : ((World.init base).run h).pools[i]? = some p)
+    (t : Nat) (tk : PTask) (ht : p.tasks[t]? = some tk) (hf : tk.phase = .finished) :
+    tk.nEC = (if tk.endCb = .none then 0 else 1) ∧
+    (tk.wasCancelled = true → tk.nCC = (if tk.cancelCb = .none then 0 else 1)) ∧
+    (tk.wasCancelled = false → tk.nCC = 0) :=
+  C03_exactly_once base h i c p hc hp (C03_never_lost base h hn i c p hc hp) t tk ht hf
+
+/-- … and **the three registries are complete**: a task that has not handed back its slot counts as running or as
+cancelled -/
+theorem C03_complete (base : Nat) (h : History) (hn : ∀ x ∈ h, x.admits noAsync = true) (i : Nat) (c : Cfg) (p : Pool)
+    (hc : ((World.init base).run h).cfgs[i]? = some c) (hp : ((World.init base).run h).pools[i]? = some p)
+    (t : Nat) (tk : PTask) (ht : p.tasks[t]? = some tk) (hrel : tk.released = false) :
+    t ∈ p.running ∨ t ∈ p.cancelledR :=
+  C03_complete_partial base h i c p hc hp (C03_never_lost base h hn i c p hc hp) t tk ht hrel
+
 /-- **callbacks are run to completion**: a task suspended inside a coroutine callback has entered that callback
 exactly once and is still counted accordingly — cancelled (slot held) in the cancel callback, ended (slot handed
 back) in the end callback -/
